@@ -6,7 +6,7 @@ HERE = os.path.dirname(os.path.dirname(os.path.abspath(__file__)))
 S1 = "seeded search over (workload, device schedule) runs on a simulated array backend (SimKind) whose four open outcomes are decided by a PRNG scheduler; oracle = reference model on plain lists + isomorphism decision; control (VecLike) and VecKind configurations run separately from perturbed ones"
 CLAIMED = {
  "C01": dict(tech="deterministic simulation: seeded schedule search over the array-backend seam (SimKind), refinement against a reference gluing up to isomorphism, minimised replay",
-             text="Exploration by deterministic simulation: ~0.5M (quick) / ~12M (thorough) seeded runs, each composing a generated pair on the simulated device under control, Vec and 1-4 perturbed schedules and comparing the result up to isomorphism with an independently computed pushout. A clean batch is evidence, not proof; this is the right level because the property quantifies over all pairs and (through C20) all conforming backends, which only sampling reaches here.",
+             text="Exploration by deterministic simulation: ~1.7M (quick) / ~34M (thorough) seeded runs, each composing a generated pair on the simulated device under control, Vec and 1-4 perturbed schedules and comparing the result up to isomorphism with an independently computed pushout; plus stress cases (boundaries of 10^5..10^6 wires collapsing along one chain) run in child processes so that an abort of the library is reported as a violation. A clean batch is evidence, not proof; this is the right level because the property quantifies over all pairs and (through C20) all conforming backends, which only sampling reaches here.",
              ref="§5 C01"),
  "C03": dict(tech="deterministic simulation: both sides of each SMC law computed under seeded device schedules (SimKind), compared by an isomorphism decision procedure",
              text="Exploration by deterministic simulation: seeded runs, each evaluating associativity, units, interchange, naturality / self-inverse of the symmetry and both hexagons on a generated composable triple + pair + object lists, on control, Vec and perturbed device schedules; the two sides of a law are different computations whose numberings differ under perturbed schedules, and are compared up to isomorphism. Evidence, not proof.",
@@ -15,7 +15,7 @@ CLAIMED = {
              text="Exploration by deterministic simulation: dagger (exact swap, involution, contravariance, over tensor), spider fusion against reference cospan composition, identity/symmetry as spiders, spider/half_spider acceptance under corrupted leg codomains; strict versions on control, Vec and perturbed schedules, lax versions on the Vec device. Evidence, not proof.",
              ref="§5 C04"),
  "C09": dict(tech="deterministic simulation: generated operation histories on the lax builder against a list model, with the failing operation (label-conflict quotient) as injected fault, repair-and-retry, restart through a simulated disk, fork",
-             text="Exploration by deterministic simulation of histories: ~1.3M (quick) / ~27M (thorough) seeded histories of builder steps interleaved with unifications and quotient calls on a real lax (open) hypergraph, compared field by field with a list model after every step; quotient results are validated as surjections with exactly the union-find classes as fibres, failed quotients must leave the diagram equal to the pre-call clone, a second quotient must be the identity. Evidence, not proof.",
+             text="Exploration by deterministic simulation of histories: ~1.3M (quick) / ~27M (thorough) seeded histories of builder steps interleaved with unifications and quotient calls on a real lax (open) hypergraph, compared field by field with a list model after every step; quotient results are validated as surjections with exactly the union-find classes as fibres, failed quotients must leave the diagram equal to the pre-call clone, a second quotient must be the identity; stress cases (chains of 2*10^5..6*10^5 unified nodes) run in child processes. Evidence, not proof.",
              ref="§5 C09"),
  "C11": dict(tech="deterministic simulation: generated builder histories against a list model, rejected out-of-range deletions, restart = serde_json through a simulated disk with short writes/reads and EINTR, fork",
              text="Exploration by deterministic simulation of histories: ~1.1M (quick) / ~22M (thorough) seeded histories of builder calls (incl. deletions with duplicate and out-of-range identifiers, relabelling with right/wrong lengths) on a real lax (open) hypergraph, refinement against a list model after every step, identifiers and renumbering maps compared, JSON restart through a simulated disk and documented field names. Evidence, not proof.",
@@ -42,10 +42,10 @@ CLAIMED = {
              text="Exploration by deterministic simulation: generated optics (forward/reverse object maps, residuals empty/single/multiple) checked against a reference substitution of lens diagrams (typing, composition, tensor, adapt), and the reverse-derivative lenses of polynomial circuits evaluated through strict::eval on (x, dy) against reference reverse-mode differentiation over Z/2^64, strict (all device configurations) and lax (Vec) entry points. Evidence, not proof.",
              ref="§5 C14"),
  "C05": dict(tech="deterministic simulation: pool machine (long random operation sequences on a pool of diagrams under seeded device schedules, deep well-formedness + promised type + refinement against reference twins after every step) and single-datum corruption faults at the checked constructors",
-             text="Exploration by deterministic simulation: the standing invariant of the simulator (deep well-formedness from raw fields and the promised type after every library call) run as its own check on a pool machine of up to 30/40 operations per run under control, Vec and perturbed schedules, each result also refined against its plain reference twin; plus raw parts with at most one datum flipped handed to every checked constructor, which must accept iff the documented condition holds. Evidence, not proof.",
+             text="Exploration by deterministic simulation: the standing invariant of the simulator (deep well-formedness from raw fields and the promised type after every library call) run as its own check on a pool machine of up to 30/40 operations per run under control, Vec and perturbed schedules (compose, tensor, dagger, identities, symmetries, spiders, singleton, operation batches, functor and optic application, round trips; and the same sequence through the lax public API on the Vec device), each result also refined against its plain reference twin and typed as promised (also through the Arrow trait); plus raw parts with at most one datum flipped handed to every checked constructor, which must accept iff the documented condition holds. Evidence, not proof.",
              ref="§5 C05"),
  "C06": dict(tech="deterministic simulation: coequalizer under seeded component numberings and universal map under seeded scatter fillers (SimKind), partition equality against a reference union-find; remaining clauses on two devices as control",
-             text="Exploration by deterministic simulation: coequalizers must be surjections whose fibres are exactly the generated classes under every component numbering, universal maps must exist, be returned and factor iff the map is constant on fibres (None, not a panic, otherwise) under every scatter filler; the clauses that consume no device choice are evaluated on both devices against functions-as-Vec and reported as control. Evidence, not proof.",
+             text="Exploration by deterministic simulation: coequalizers must be surjections whose fibres are exactly the generated classes under every component numbering, universal maps must exist, be returned and factor iff the map is constant on fibres (None, not a panic, otherwise) under every scatter filler; the clauses that consume no device choice are evaluated on both devices against functions-as-Vec and reported as control; stress cases (chains, stars, random graphs on 3*10^5..10^6 elements) run in child processes. Evidence, not proof.",
              ref="§5 C06"),
  "C20": dict(tech="deterministic simulation: every listed strict operation on VecKind, on the simulated device's control schedule and under >= 8 perturbed schedules (each open choice alone, fixed adversarial policies, random); results compared with Vec's up to isomorphism / identically",
              text="Exploration by deterministic simulation, the property being the simulation itself: composition, tensor, functor and optic application, layering, evaluation, structural predicates and morphism tests run on the shipped backend and on an independently implemented conforming backend whose four open outcomes are decided adversarially; diagram results must be isomorphic to Vec's, everything else identical, layerings valid on each schedule. Evidence, not proof: one alternative backend family, small inputs.",
